@@ -1,9 +1,11 @@
 """Hand-written texts for MANIFEST.json."""
-NOT_APPLICABLE = {
-    "C16": "not built yet in this round: the program-level check (generated literals compiled with the real macros) is the next item on the build order",
-    "C17": "not built yet in this round: the program-level check (generated #[derive(Codec)] declarations compiled with the real derive) is the next item on the build order",
-}
+NOT_APPLICABLE = {}
 TECHNIQUE = {
+    "C16": "TLA+ spec + TLC model checking; generated Rust programs compiled with the real macros, their logged values and compile verdicts validated as traces against the spec (TLC), both build profiles",
+    "C17": "TLA+ spec + TLC model checking; generated #[derive(Codec)] programs compiled with the real derive, their logged tables and compile verdicts validated as traces against the spec (TLC), both build profiles",
+    "C03": "TLA+ spec + TLC model checking; trace validation (impl->spec) plus TLC-generated slice expressions replayed into the real library (spec->impl), both build profiles",
+    "C06": "TLA+ spec + TLC model checking; trace validation (impl->spec) plus TLC-generated edit histories replayed into the real library (spec->impl), both build profiles",
+    "C11": "TLA+ spec + TLC model checking incl. a liveness property; trace validation (impl->spec) plus TLC-generated iterator runs replayed (spec->impl), both build profiles",
     "default": "TLA+ spec + TLC model checking; trace validation of recorded implementation executions against the spec (TLC), both build profiles",
 }
 _common = (" The verdict always comes from conformance: every recorded public call of the real library (all applicable codecs, dev and release builds) "
@@ -25,6 +27,8 @@ LEVEL_TEXT = {
     "C13": "Finite domain closed completely: 64 codons x 32 bit offsets through the real to_amino, validated against the NCBI table in Codecs.tla." + _common,
     "C14": "Finite domain closed completely: all 16^3 IUPAC codons; soundness/completeness defined by expansion sets (Translation.tla), the 29-row mechanism checked against it by TLC." + _common,
     "C15": "TableNew/TableFold state machine: order independence of the inverse map model-checked over all insertion orders; tables rebuilt repeatedly and queried by slices at offsets." + _common,
+    "C16": "LitProg/KmerLit/LitVerdict actions (Derive.tla): generated programs expand every literal with the real macros; the values they log and the per-target compile verdicts are recorded as events and validated by TLC; the macro crate's bit lists are model-checked against Pack(Parse(text))." + _common,
+    "C17": "DeriveProg/DeriveVerdict actions (Derive.tla): seeded enum declarations are compiled with the real derive; BITS, both decoders over all 256 bytes, items, characters, a Seq round trip and the compile verdicts of malformed declarations are recorded as events and validated by TLC; the width law is model-checked for every maximal discriminant." + _common,
     "C18": "SerdeRT is the identity on content; interleaved into register histories (json + bincode), k-mers of every instantiated K/storage." + _common,
     "C19": "Convert/TextBaseToDna/Trim actions; all 256 bytes, all short strings over good/bad bytes, literals and SeqArray sources." + _common,
     "C20": "Mask/Unmask transforms with idempotence/involution/commutation laws model-checked on all symbols; traced on 5-bit symbols straddling words." + _common,
